@@ -2,15 +2,21 @@
 import os
 import re
 import subprocess
+import time
 from concurrent.futures import ThreadPoolExecutor
+
+
+WALL = {}
 
 
 def callgrind_ir(binary, family, n, drv):
     cmd = ["valgrind", "--tool=callgrind", "--callgrind-out-file=/dev/null", binary, "scale", family, str(n)]
+    t0 = time.time()
     try:
         p = subprocess.run(cmd, cwd=drv.VERIF, stdout=subprocess.PIPE, stderr=subprocess.PIPE, text=True, timeout=900, env=drv.env_offline())
     except subprocess.TimeoutExpired:
         return None, "timeout", ""
+    WALL[(family, n)] = time.time() - t0
     m = re.search(r"Collected\s*:\s*(\d+)", p.stderr)
     if p.returncode != 0 or not m:
         return None, f"rc={p.returncode}", p.stdout + p.stderr[-500:]
@@ -26,7 +32,13 @@ def scaling_phase(run, rel_binary, drv, n):
     base = None
     for (f, k), (ir, status, out) in zip(jobs, res):
         if ir is None:
-            run.inconclusive.append(f"[scaling] callgrind {f} n={k}: {status} {out[-200:]}")
+            small = WALL.get((f, n))
+            if status == "timeout" and k == 4 * n and small is not None and small < 20:
+                # the input a quarter of the size was measured in under 20 s; this one did not finish
+                # in 900 s: more than 45x for a 4x input on the same machine, far beyond quadratic
+                run.violations.append({"sig": f"superquadratic-work:{f}", "detail": f"the family at n={k} did not finish under callgrind within 900 s; at n={n} it took {small:.1f} s", "workload": f"scale:{f}", "index": n, "input": None, "phase": "scaling"})
+            else:
+                run.inconclusive.append(f"[scaling] callgrind {f} n={k}: {status} {out[-200:]}")
             continue
         if "SCALE-VIOLATION" in out:
             run.violations.append({"sig": f"scale-panic:{f}", "detail": out[:600], "workload": f"scale:{f}", "index": k, "input": None, "phase": "scaling"})
@@ -52,7 +64,13 @@ def scaling_phase(run, rel_binary, drv, n):
 
 def run(run, binary, drv):
     drv.standard_phase(run, binary, phase="checked")
+    # a shard that died or hung already decides the run; the other build profiles would only wait for
+    # the same case again
+    stopped = any(v["sig"].startswith(("hang:", "process-death:")) for v in run.violations)
     rel = drv.build("release")
+    if rel and stopped:
+        scaling_phase(run, rel, drv, 150 if run.tier == "quick" else 500)
+        return
     if rel:
         drv.standard_phase(run, rel, phase="release-H1", extra_args=["--frac", "2"])
         scaling_phase(run, rel, drv, 150 if run.tier == "quick" else 500)
